@@ -14,6 +14,7 @@ def tree(prefix, B):
         p: None,
         f"{p}/a.bin": 3 * B + 5,
         f"{p}/b.bin": B,
+        f"{p}/big.bin": 64 * B,
         f"{p}/empty": 0,
         f"{p}/d1": None,
         f"{p}/d1/x": 10,
@@ -54,6 +55,14 @@ def scripts(B=16):
     # command lines arriving in one segment (the server reads ahead while a handler runs)
     S["pipelined"] = L + [["raw", "PASV\r\nEPSV\r\n"], ["reply"], ["reply"], ["get", "RETR b.bin"], ["raw", "EPSV\r\nNOOP\r\nPASV\r\nEPSV\r\n"], ["reply"], ["reply"], ["reply"], ["reply"], ["raw", "MKD p1\r\nPWD\r\nRMD p1\r\nMLST a.bin\r\nNOOP\r\n"], ["reply"], ["reply"], ["reply"], ["reply"], ["reply"], ["quit"]]
     return S
+
+
+def extra_scripts(B=16):
+    """Scripts whose outcome depends on timing by design (used by C12 only, never compared
+    between runs): a download whose peer never reads the data connection, so that the server's
+    transfer worker sits in a blocked write with unsent bytes when the session is cut."""
+    L = _login()
+    return {"stalled_reader": L + [["get_stalled", "RETR big.bin", 20.0], ["close"]]}
 
 
 USERS = [
